@@ -6,8 +6,10 @@
 package main
 
 import (
+	"encoding/json"
 	"errors"
 	"fmt"
+	"os"
 	"strings"
 	"time"
 
@@ -72,15 +74,25 @@ func main() {
 	}
 
 	seen := map[string]int{}
-	for _, cs := range enumerate(c.Quick()) {
-		name := cs.Name()
+	jr := newJournal(c)
+	stop := false
+	enumerate(c.Quick(), func(cs Case) {
+		if stop {
+			return
+		}
+		name := ""
+		if c.Only != "" {
+			name = cs.Name()
+		}
 		if !c.Mine(name) {
-			continue
+			return
 		}
 		if c.TimeUp() {
-			break
+			stop = true
+			return
 		}
-		c.Journal(name, cs)
+		name = cs.Name()
+		jr.write(name, cs)
 		var fs []finding
 		var execs int64
 		var outcome string
@@ -100,7 +112,7 @@ func main() {
 			var he *harnessErr
 			if errors.As(gerr, &he) {
 				c.Infra(name + ": " + he.msg)
-				continue
+				return
 			}
 			// a panic unwound to the caller of the public API
 			fs = []finding{{"panic-escaped-to-caller", "a panic escaped from the public API call into the caller: " + strings.SplitN(gerr.Error(), "\n", 2)[0]}}
@@ -112,7 +124,7 @@ func main() {
 			if cs.Family != "baseline" {
 				c.Sample(name)
 			}
-			continue
+			return
 		}
 		for _, f := range fs {
 			c.Count("violations_"+f.Sig, 1)
@@ -124,6 +136,42 @@ func main() {
 			v.Clause = f.Sig
 			c.Violate(harness.Violation{Scenario: name + " #" + f.Sig, Signature: f.Sig, Case: v, Msg: f.Msg})
 		}
-	}
+	})
 	c.Finish()
+}
+
+// journal does what harness.Ctx.Journal does (same file, same record: the driver attributes a dead worker
+// to the case named there) but keeps the file open and overwrites it in place: one pwrite per case instead
+// of open+truncate+write+close, which dominated the wall time with 300k cases. The record is padded with
+// blanks to the longest record written so far, so a shorter record leaves no tail of the previous one.
+type journal struct {
+	c   *harness.Ctx
+	f   *os.File
+	max int
+}
+
+func newJournal(c *harness.Ctx) *journal {
+	j := &journal{c: c}
+	if c.Out == "" || c.Replay != "" {
+		return j
+	}
+	f, err := os.OpenFile(c.Out+".journal", os.O_CREATE|os.O_WRONLY|os.O_TRUNC, 0o644)
+	if err == nil {
+		j.f = f
+	}
+	return j
+}
+
+func (j *journal) write(name string, cs Case) {
+	if j.f == nil {
+		j.c.Journal(name, cs)
+		return
+	}
+	b, _ := json.Marshal(harness.Violation{Property: j.c.Property, Scenario: name, Signature: "process-crash", Case: cs,
+		Msg: "the process died while running this case (a panic escaped into a goroutine)"})
+	for len(b) < j.max {
+		b = append(b, ' ')
+	}
+	j.max = len(b)
+	j.f.WriteAt(b, 0)
 }
